@@ -1,0 +1,60 @@
+// SPDX-FileCopyrightText: 2026 The Pion community <https://pion.ly>
+// SPDX-License-Identifier: MIT
+
+//go:build verif
+
+package h264writer
+
+// Contracts for the contract-based verification in /verif (build tag verif); comments only.
+
+//@ func specKeyNalu264
+//@ pure
+//@ nosafety
+//@ func specKeyFrame264
+//@ pure
+//@ nosafety
+//@ func specKeyAny264
+//@ pure
+//@ nosafety
+
+// The keyframe predicate equals the property's definition for every payload.
+//@ func isKeyFrame
+//@ props C35
+//@ observe len(data)
+//@ observe b0 := ite(len(data) >= 1, data[0], 0)
+//@ observe b1 := ite(len(data) >= 2, data[1], 0)
+//@ observe b3 := ite(len(data) >= 4, data[3], 0)
+//@ ensures specKeyFrame264(data) ==> result
+//@ ensures result ==> specKeyAny264(data)
+//@ modifies nothing
+
+// Assumed contracts on dependencies: the depacketizer (pion/rtp) returns the Annex-B
+// bytes of the units the packet completes (possibly none) and writes nothing of this
+// package; ufint("depktout") names whether this call produced output. The output
+// writer is an event (ghost counter wrWrites).
+//@ func (*codecs.H264Packet).Unmarshal
+//@ trusted
+//@ ensures (err == nil && len(ret0) > 0) == (ufint("depktout") != 0)
+//@ modifies nothing
+//@ func (io.Writer).Write
+//@ trusted
+//@ ghost wrWrites += 1
+//@ modifies nothing
+
+//@ field H264Writer.hasKeyFrame props C35 writers (*H264Writer).WriteRTP
+//@ field H264Writer.writer props C35 writers
+
+// Gating: nothing is written before the first keyframe packet; from it on every packet
+// is handed to the depacketizer and its output (when there is any) is written exactly
+// once, in the order of the calls; the gate never closes again.
+//@ func (*H264Writer).WriteRTP
+//@ props C35
+//@ requires h != nil && packet != nil && h.writer != nil
+//@ observe old(h.hasKeyFrame)
+//@ ensures old(h.hasKeyFrame) ==> h.hasKeyFrame
+//@ ensures len(packet.Payload) == 0 ==> err == nil && h.hasKeyFrame == old(h.hasKeyFrame) && ghost(wrWrites) == old(ghost(wrWrites))
+//@ ensures len(packet.Payload) > 0 && !old(h.hasKeyFrame) && !h.hasKeyFrame ==> err == nil && ghost(wrWrites) == old(ghost(wrWrites))
+//@ ensures len(packet.Payload) > 0 && !old(h.hasKeyFrame) && specKeyFrame264(packet.Payload) ==> h.hasKeyFrame
+//@ ensures len(packet.Payload) > 0 && !old(h.hasKeyFrame) && !specKeyAny264(packet.Payload) ==> !h.hasKeyFrame
+//@ ensures len(packet.Payload) > 0 && h.hasKeyFrame ==> ghost(wrWrites) == old(ghost(wrWrites)) + ite(ufint("depktout") != 0, 1, 0)
+//@ atcall (io.Writer).Write assert h.hasKeyFrame && sameptr(callarg1, data) && len(callarg1) == len(data) && len(data) > 0
